@@ -27,7 +27,7 @@ META = dict(
         "canonicalise(): the order of the individual table is not asserted beyond invariance under row permutation",
         "compute_mutation_times values are compared with rtol 1e-9",
     ],
-    BUDGET={"quick": 45.0,
+    BUDGET={"quick": 40.0,
             # seconds per worker; VERIF_C07_THOROUGH_BUDGET shortens it for development runs only
             "thorough": float(os.environ.get("VERIF_C07_THOROUGH_BUDGET", 840.0))},
     EXHAUSTIVE={"quick": False, "thorough": False},
